@@ -336,7 +336,7 @@ theorem hamilton_fair (T W : Int) (hT : 0 < T) (hW : 0 < W) (ns : List Node) (hn
     rw [if_neg hc] at hl
     simp only [] at hl
     split at hl
-    · subst hl; simp
+    · subst hl; simp only [List.getElem_map]; omega
     · subst hl
       have hjb : j < (ns.map (baseOf T W)).length := by simp; exact hj
       have hnd : (((entriesFrom T W 0 ns).mergeSort entryLe |>.take (T - (ns.map (baseOf T W)).sum).toNat).map (·.index)).Nodup := by
@@ -347,6 +347,60 @@ theorem hamilton_fair (T W : Int) (hT : 0 < T) (hW : 0 < W) (ns : List Node) (hn
       rw [foldl_bump_getElem _ hnd _ j hjb]
       simp only [List.getElem_map]
       split <;> omega
+  exact key _ rfl
+
+end KoordVerif.C02
+
+namespace KoordVerif.C02
+
+theorem entriesFrom_index_weight (T W : Int) (i : Nat) (ns : List Node) :
+    ∀ e ∈ entriesFrom T W i ns, ∃ k, ∃ (hk : k < ns.length), e.index = i + k ∧ 0 < ns[k].weight := by
+  induction ns generalizing i with
+  | nil => intro e he; simp [entriesFrom] at he
+  | cons n ns ih =>
+    intro e he
+    unfold entriesFrom at he
+    by_cases hw : n.weight ≤ 0
+    · rw [if_pos hw] at he
+      obtain ⟨k, hk, h1, h2⟩ := ih (i + 1) e he
+      exact ⟨k + 1, by simp; omega, by omega, by simpa using h2⟩
+    · rw [if_neg hw] at he
+      rcases List.mem_cons.mp he with rfl | he
+      · exact ⟨0, by simp, by simp, by simp; omega⟩
+      · obtain ⟨k, hk, h1, h2⟩ := ih (i + 1) e he
+        exact ⟨k + 1, by simp; omega, by omega, by simpa using h2⟩
+
+/-- a sibling whose shared weight is not positive receives nothing. -/
+theorem hamilton_zero_weight_delta (T W : Int) (ns : List Node) (j : Nat) (hj : j < ns.length)
+    (hw : ns[j].weight ≤ 0) : (hamilton T W ns)[j]'(by rw [hamilton_length]; exact hj) = 0 := by
+  have key : ∀ (l : List Int) (hl : l = hamilton T W ns), l[j]'(by rw [hl, hamilton_length]; exact hj) = 0 := by
+    intro l hl
+    unfold hamilton at hl
+    split at hl
+    · subst hl; simp
+    · simp only [] at hl
+      have hb : baseOf T W ns[j] = 0 := by simp [baseOf, hw]
+      split at hl
+      · subst hl; simp [hb]
+      · subst hl
+        have hjb : j < (ns.map (baseOf T W)).length := by simp; exact hj
+        have hnd : (((entriesFrom T W 0 ns).mergeSort entryLe |>.take (T - (ns.map (baseOf T W)).sum).toNat).map (·.index)).Nodup := by
+          rw [List.map_take]
+          apply List.Nodup.sublist (List.take_sublist _ _)
+          exact ((List.mergeSort_perm (entriesFrom T W 0 ns) entryLe).map (·.index)).nodup_iff.mpr
+            (entriesFrom_index_nodup T W 0 ns)
+        rw [foldl_bump_getElem _ hnd _ j hjb]
+        simp only [List.getElem_map, hb]
+        have hnot : j ∉ ((entriesFrom T W 0 ns).mergeSort entryLe |>.take (T - (ns.map (baseOf T W)).sum).toNat).map (·.index) := by
+          intro hmem
+          obtain ⟨e, he, hej⟩ := List.mem_map.mp hmem
+          have he' : e ∈ entriesFrom T W 0 ns :=
+            (List.mergeSort_perm _ entryLe).mem_iff.mp ((List.take_sublist _ _).subset he)
+          obtain ⟨k, hk, h1, h2⟩ := entriesFrom_index_weight T W 0 ns e he'
+          have : k = j := by omega
+          subst this
+          omega
+        rw [if_neg hnot]; simp
   exact key _ rfl
 
 end KoordVerif.C02
